@@ -22,6 +22,8 @@ pub fn check(tier: Tier) -> Check {
         parts.push(Part::new("C14/drop", json!({"depth": d, "r": 1}), k, tier.pick(40, 600)));
     }
     parts.push(Part::new("C14/drop", json!({"depth": tier.pick(4, 6), "r": 1, "flavour": 1}), 1, tier.pick(40, 600)));
+    // two established subscriptions (one stream taken, one response kept), several buffered messages
+    parts.push(Part::new("C14/streams", json!({"depth": tier.pick(5, 6)}), tier.pick(1, 2), tier.pick(40, 400)));
     Check {
         also_rel: false,
         property: "C14",
@@ -32,7 +34,51 @@ pub fn check(tier: Tier) -> Check {
     }
 }
 
+fn streams(name: String, params: Value) -> Scenario {
+    let depth = params["depth"].as_u64().unwrap_or(5) as usize;
+    Box::new(move |chz, ex| {
+        let mut sys = Sys::new("C14", &name, chz);
+        sys.params = params.clone();
+        sys.m.check_client_acks = false;
+        sys.bring_up(vec![]);
+        for i in 0..2 {
+            sys.apply(Ev::Start(OpSpec::Subscribe(SubscribeSpec::simple(&format!("s/{}", i)))));
+            if sys.dead {
+                return sys.report(ex, &[]);
+            }
+            let ack = sys.ack_for(i, 0, "").unwrap();
+            sys.apply(Ev::Deliver(ack));
+        }
+        sys.apply(Ev::TakeStream(0));
+        if sys.dead {
+            return sys.report(ex, &[]);
+        }
+        let ids: Vec<u32> = sys.m.subs.iter().map(|x| x.sub_id.unwrap()).collect();
+        let devs = |s: &Sys| sched_deviations(s, false, true);
+        let evs = |s: &Sys| {
+            let mut e = vec![];
+            if s.m.ctx == CtxSt::Running {
+                let t = s.transitions;
+                for id in &ids {
+                    e.push(Ev::Deliver(inbound(0, false, 0, &[*id], &format!("m{}", t))));
+                }
+                e.push(Ev::Deliver(inbound(1, false, 21, &ids, &format!("b{}", t))));
+                e.push(Ev::DropCtx);
+            }
+            if s.m.subs[1].stream.is_none() && s.m.subs[1].receiver_alive {
+                e.push(Ev::TakeStream(1));
+            }
+            e
+        };
+        drive(&mut sys, chz, depth, &devs, &evs);
+        sys.report(ex, &["stream-end"]);
+    })
+}
+
 pub fn scenario(name: &str, params: &Value) -> Scenario {
+    if name == "C14/streams" {
+        return streams(name.to_string(), params.clone());
+    }
     let depth = params["depth"].as_u64().unwrap_or(4) as usize;
     let r = params["r"].as_u64().unwrap_or(0) as u16;
     let params = params.clone();
